@@ -10,6 +10,7 @@
 #include "rtrlib/rtr_mgr_private.h"
 #include "rtrlib/spki/hashtable/ht-spkitable_private.h"
 
+#include <pthread.h>
 #include <openssl/ec.h>
 #include <openssl/ecdsa.h>
 #include <openssl/evp.h>
@@ -20,7 +21,7 @@
 VCOMMON_GLOBALS
 
 #define NKEYS 24
-#define MAXHOPS 32
+#define MAXHOPS 96
 #define PRIVLEN 121
 
 struct kp {
@@ -57,7 +58,7 @@ struct mkeyent {
 };
 struct mtable {
 	int n;
-	struct mkeyent e[64];
+	struct mkeyent e[3 * MAXHOPS];
 };
 
 static void make_keys(void)
@@ -188,7 +189,7 @@ static size_t evp_sign(EVP_PKEY *pk, const uint8_t *msg, size_t n, uint8_t *sig)
 /* sign the model path hop by hop from the origin with the given keys */
 static void model_sign(struct mpath *m, const int *keyidx)
 {
-	uint8_t buf[8192];
+	uint8_t buf[16384];
 
 	for (int j = m->n - 1; j >= 0; j--) {
 		size_t n = digest_input(m, j, buf);
@@ -201,7 +202,7 @@ static void model_sign(struct mpath *m, const int *keyidx)
 /* oracle: 1 = every hop verifies under a key registered for its SKI and its AS; also reports a missing SKI */
 static int oracle_valid(const struct mpath *m, const struct mtable *t, bool *ski_missing)
 {
-	uint8_t buf[8192];
+	uint8_t buf[16384];
 	bool all = true;
 
 	*ski_missing = false;
@@ -299,7 +300,7 @@ static void gen_path(struct rng *r, struct mpath *m, int *keyidx, int maxhops)
 
 static void add_key(struct mtable *t, uint32_t asn, const uint8_t *ski, int key)
 {
-	if (t->n < 64) {
+	if (t->n < 3 * MAXHOPS) {
 		t->e[t->n].asn = asn;
 		memcpy(t->e[t->n].ski, ski, SKI_SIZE);
 		t->e[t->n].key = key;
@@ -514,7 +515,7 @@ static void run_sign_case(struct rng *r, long c, int maxhops)
 	struct mpath m;
 	struct mtable t;
 	int keyidx[MAXHOPS];
-	uint8_t buf[8192];
+	uint8_t buf[16384];
 	char key[200];
 	bool ok = true;
 
@@ -696,6 +697,110 @@ static void run_sign_case(struct rng *r, long c, int maxhops)
 		sample("{\"hops\":%d,\"afi\":%u,\"nlri_len\":%u,\"generated_sig_len_hop0\":%u}", m.n, m.afi, m.nlri_len, m.h[0].sig_len);
 }
 
+/* ------------------------------------------------------------------ C11/C12 from several threads at once
+ * nothing in the property ties a call to one thread: a router signs and validates for many peers concurrently.  Each
+ * thread works on its own paths, keys are shared read-only; verdicts are collected per thread and reported by main. */
+struct mtres {
+	struct rng r;
+	int maxhops, iters;
+	unsigned long signed_ok, sign_rc_bad, sign_not_verifying, validated, validate_not_valid;
+	int first_bad_hops, first_bad_rc;
+};
+
+static void *mt_worker(void *arg)
+{
+	struct mtres *w = arg;
+	static __thread struct mpath m, sub;
+	static __thread struct mtable t;
+	int keyidx[MAXHOPS];
+	uint8_t buf[16384];
+
+	for (int it = 0; it < w->iters; it++) {
+		gen_path(&w->r, &m, keyidx, w->maxhops);
+		/* the newest hop is signed again by the library */
+		{
+			struct rtr_bgpsec *b = to_lib(&m, m.n - 1);
+			struct rtr_signature_seg *ns = NULL;
+			int rc = rtr_mgr_bgpsec_generate_signature(b, KEYS[keyidx[0]].priv, &ns);
+
+			if (rc != RTR_BGPSEC_SUCCESS || !ns) {
+				w->sign_rc_bad++;
+				w->first_bad_rc = rc;
+			} else {
+				size_t n;
+
+				sub = m;
+				memcpy(sub.h[0].sig, ns->signature, ns->sig_len);
+				sub.h[0].sig_len = ns->sig_len;
+				n = digest_input(&sub, 0, buf);
+				if (evp_verify(KEYS[keyidx[0]].pkey, buf, n, sub.h[0].sig, sub.h[0].sig_len)) {
+					w->signed_ok++;
+				} else {
+					w->sign_not_verifying++;
+					if (!w->first_bad_hops)
+						w->first_bad_hops = m.n;
+				}
+				rtr_mgr_bgpsec_free_signatures(ns);
+			}
+			rtr_mgr_bgpsec_free(b);
+		}
+		/* and the path as signed by the oracle is validated by the library */
+		{
+			struct spki_table st;
+			struct rtr_socket src;
+			struct rtr_bgpsec *b;
+
+			gen_table(&w->r, &m, keyidx, 0, &t);
+			b = to_lib(&m, m.n);
+			table_to_lib(&t, &st, &src);
+			w->validated++;
+			if (rtr_bgpsec_validate_as_path(b, &st) != RTR_BGPSEC_VALID) {
+				w->validate_not_valid++;
+				if (!w->first_bad_hops)
+					w->first_bad_hops = m.n;
+			}
+			rtr_mgr_bgpsec_free(b);
+			spki_table_free(&st);
+		}
+	}
+	return NULL;
+}
+
+static void run_mt_case(struct rng *r, long c, int maxhops, int nthreads)
+{
+	pthread_t th[16];
+	static struct mtres w[16];
+	char key[160];
+
+	if (nthreads > 16)
+		nthreads = 16;
+	memset(w, 0, sizeof(w));
+	for (int i = 0; i < nthreads; i++) {
+		w[i].r.s = rnd64(r);
+		w[i].maxhops = maxhops;
+		w[i].iters = 150;
+		pthread_create(&th[i], NULL, mt_worker, &w[i]);
+	}
+	for (int i = 0; i < nthreads; i++)
+		pthread_join(th[i], NULL);
+	for (int i = 0; i < nthreads; i++) {
+		cnt_add("c12/mt/signatures_verified_independently", w[i].signed_ok);
+		cnt_add("c11/mt/paths_validated", w[i].validated);
+		if (w[i].sign_rc_bad) {
+			snprintf(key, sizeof(key), "C12:generate-failed:concurrent:rc%d", w[i].first_bad_rc);
+			viol("C12", key, "%lu of %d signing calls made concurrently with %d other threads failed", w[i].sign_rc_bad, w[i].iters, nthreads - 1);
+		}
+		if (w[i].sign_not_verifying)
+			viol("C12", "C12:signature-does-not-verify:concurrent", "%lu of %d signatures generated while %d other threads were signing / validating do not verify over the RFC 8205 4.2 sequence (first: %d hops)",
+			     w[i].sign_not_verifying, w[i].iters, nthreads - 1, w[i].first_bad_hops);
+		if (w[i].validate_not_valid)
+			viol("C11", "C11:valid-path-rejected:concurrent", "%lu of %d correctly signed paths were not VALID while %d other threads were signing / validating (first: %d hops)",
+			     w[i].validate_not_valid, w[i].iters, nthreads - 1, w[i].first_bad_hops);
+	}
+	CNT("c12/mt/rounds");
+	nontrivial(hmix((uint64_t)c, w[0].signed_ok + 1));
+}
+
 void __wrap_lrtr_dbg(const char *frmt, ...);
 void __wrap_lrtr_dbg(const char *frmt, ...)
 {
@@ -732,6 +837,8 @@ int main(int argc, char **argv)
 			run_validate_case(&r, c, maxhops, nflips);
 		else if (!strcmp(mode, "sign"))
 			run_sign_case(&r, c, maxhops);
+		else if (!strcmp(mode, "mt"))
+			run_mt_case(&r, c, maxhops, (int)argkv_l(argc, argv, "threads", 4));
 		else
 			return 2;
 	}
